@@ -2,6 +2,7 @@ SPECIFICATION Spec
 CONSTANT Mode = "intended"
 CONSTANT K = 4
 CONSTANT KW = 3
+CONSTANT KB = 2
 CONSTANT EmitScn = FALSE
 INVARIANT Confluent
 INVARIANT MatchesDeclarative
